@@ -277,6 +277,7 @@ type Obligation struct {
 	queries []*Term // terms to evaluate in a model
 	qnames  []string
 	Trivial bool // goal folded to true syntactically
+	TimeoutS int // per-function override of the quick-tier solver timeout
 
 	// filled by discharge
 	Result string // unsat / sat / unknown / timeout
@@ -714,6 +715,9 @@ func (e *Exec) oblige(st State, fn *ssa.Function, kind, label string, pos token.
 		ob.Asserts = append(c.relevant(hyps, ng), ng)
 	}
 	ob.Props = e.curProps
+	if e.rootCt != nil {
+		ob.TimeoutS = e.rootCt.Timeout
+	}
 	e.obls = append(e.obls, ob)
 	return st.assume(goal)
 }
